@@ -6,7 +6,7 @@ from common import Broken, sh
 ASSUMPTIONS = [
     "the transaction hash is collision-free on the inputs considered (modelled as the identity)",
     "the node runs Tendermint's kv transaction indexer and the index is complete when the next block starts (the harness feeds an in-memory kv index at every commit as a node would); with indexer = \"null\" there is no replay record at all",
-    "OLVM transactions are additionally protected by the account nonce (modelled under C17)",
+    "OLVM transactions are additionally protected by the account nonce (modelled under C17); Ethereum lock / redeem transactions by their tracker record in the ongoing, passed or failed store (modelled under C15): for both, every re-encoding must be refused, also after the tracker has been cleaned up",
     "\"took effect\" is observed as a change of the deliver state's key/value view across the DeliverTx call",
 ]
 
@@ -45,6 +45,9 @@ def judge(ctx, rep, mm):
             elif s["same_parsed"] and k["kind"].startswith("OLVM"):
                 # OLVM transactions are protected by the account nonce: no encoding may execute twice
                 viol.append((k, s, "re-encoding of an executed OLVM transaction accepted or took effect again (account nonce)"))
+            elif s["same_parsed"] and k["kind"].startswith("ETH"):
+                # Ethereum lock / redeem transactions are protected by their tracker record (ongoing, then archived)
+                viol.append((k, s, "re-encoding of an executed Ethereum lock/redeem transaction accepted or took effect again (tracker record)"))
             elif s["same_parsed"]:
                 if ctx.known_finding("C05.reencoding_replay", ""):
                     known_hits += 1
